@@ -1,6 +1,7 @@
 package main
 
 import (
+	"sort"
 	"fmt"
 	"go/token"
 	"go/types"
@@ -96,7 +97,14 @@ func ruleRemovalIdentityChecked(c *Ctx, rule string) {
 	p := c.p
 	sc := p.MustFn("goat.Proxy.serveClients")
 	n := 0
-	allInstrs(sc, func(i ssa.Instruction) {
+	// the removal may live in serveClients or in a helper it calls
+	var fam []*ssa.Function
+	for g := range p.reachableFns(sc) {
+		fam = append(fam, g)
+	}
+	sort.Slice(fam, func(i, j int) bool { return p.fnKey(fam[i]) < p.fnKey(fam[j]) })
+	for _, scf := range fam {
+	allInstrs(scf, func(i ssa.Instruction) {
 		cl, ok := i.(*ssa.Call)
 		if !ok {
 			return
@@ -120,6 +128,7 @@ func ruleRemovalIdentityChecked(c *Ctx, rule string) {
 		c.check(rule, "serveClients:delete-by-name", ident, "on a connection failure the peer table entry is deleted by name alone (facts: "+fs.String()+"): when a peer re-attached under its name and the old connection then fails, the newer connection is forgotten and replies to that peer are lost", p.ipos(i))
 		c.check(rule, "serveClients:delete-under-lock", p.Locks().Must(i)["goat.Proxy.mutex"], "the removal happens under the peer-table lock", p.ipos(i))
 	})
+	}
 	c.floor(rule, "removals from the peer table", n, 1)
 }
 
@@ -222,13 +231,15 @@ func ruleFailureReported(c *Ctx, rule string) {
 	c.floor(rule, "error reports from peer loops", n, 3)
 	// the callback runs outside the lock
 	sc := p.MustFn("goat.Proxy.serveClients")
-	allInstrs(sc, func(i ssa.Instruction) {
+	for scf := range p.reachableFns(sc) {
+	allInstrs(scf, func(i ssa.Instruction) {
 		if cl, ok := i.(*ssa.Call); ok && p.callbackField(cl.Call.Value) == "goat.Proxy.clientDisconnect" {
 			c.check(rule, "serveClients:callback-outside-lock", !p.Locks().May(i)["goat.Proxy.mutex"], "the disconnect callback is invoked with the peer table unlocked", p.ipos(i))
 			a := cl.Call.Args
 			c.check(rule, "serveClients:callback-args", len(a) == 2 && strings.HasSuffix(p.lpath(a[0]), ".id") && strings.HasSuffix(p.lpath(a[1]), ".err"), "the callback receives the failed peer's name and its error", p.ipos(i))
 		}
 	})
+	}
 }
 
 func ruleContextEndsLoop(c *Ctx, rule string) {
